@@ -96,27 +96,29 @@ private theorem nz_src {src src' : Src} {snk snk' : Snk} {d lost : List Octet} (
 private theorem nz_snk {src src' : Src} {snk snk' : Snk} {d lost : List Octet} (h : Moved src snk src' snk' d lost)
     (hk : NoZero snk.script) : NoZero snk'.script := NoZero.suffix h.2.2.1 hk
 
-/-- `sts_n` (endpoints without buffer extension): same guarantee -/
+/-- `sts_n` (endpoints without buffer extension), for drivers that may answer anything - partial transfers,
+    0 ("nothing for the moment"), interruptions, errors: success = exactly `rest` octets moved in order, nothing
+    lost; failure = a prefix moved and at most one octet lost; it returns once the fuel covers the requested
+    count plus the length of the source's script (every round that moves nothing uses up one step of it) -/
 theorem sts_n_spec : ∀ (fuel : Nat) (src : Src) (snk : Snk) (rest total : Nat),
-    NoZero src.script → NoZero snk.script →
     (∀ m, (sts_n fuel src snk rest total).1 = .ok m → m = total ∧
       ∃ d, d.length = rest ∧ Moved src snk (sts_n fuel src snk rest total).2.1 (sts_n fuel src snk rest total).2.2 d []) ∧
     (∀ e, (sts_n fuel src snk rest total).1 = .err e →
       ∃ d lost, lost.length ≤ 1 ∧ Moved src snk (sts_n fuel src snk rest total).2.1 (sts_n fuel src snk rest total).2.2 d lost) ∧
-    (rest ≤ fuel → (sts_n fuel src snk rest total).1 ≠ .diverge) := by
+    (rest + src.script.length ≤ fuel → (sts_n fuel src snk rest total).1 ≠ .diverge) := by
   intro fuel
   induction fuel with
   | zero =>
-    intro src snk rest total _ _
+    intro src snk rest total
     cases rest with
     | zero => exact ⟨fun m hm => ⟨by simpa [sts_n] using hm.symm, [], rfl, Moved.refl src snk⟩, by simp [sts_n], by simp [sts_n]⟩
     | succ r => exact ⟨by simp [sts_n], by simp [sts_n], by omega⟩
   | succ fuel ih =>
-    intro src snk rest total hs hk
+    intro src snk rest total
     cases rest with
     | zero => exact ⟨fun m hm => ⟨by simpa [sts_n] using hm.symm, [], rfl, Moved.refl src snk⟩, by simp [sts_n], by simp [sts_n]⟩
     | succ r =>
-      obtain ⟨c1, c2, c3⟩ := sts_cbc_spec src snk hs hk
+      obtain ⟨c1, c2, c3⟩ := sts_cbc_gen src snk
       simp only [sts_n]
       rcases hc : sts_cbc src snk with ⟨rc, src1, snk1⟩
       rw [hc] at c1 c2 c3
@@ -127,42 +129,50 @@ theorem sts_n_spec : ∀ (fuel : Nat) (src : Src) (snk : Snk) (rest total : Nat)
         obtain ⟨lost, hl, hm⟩ := c2 e rfl
         exact ⟨by simp, fun e' _ => ⟨[], lost, hl, hm⟩, by simp⟩
       | ok k =>
-        obtain ⟨hk1, o, hm⟩ := c1 k rfl
-        subst hk1
-        simp only [Nat.add_sub_cancel]
-        obtain ⟨i1, i2, i3⟩ := ih src1 snk1 r total (nz_src hm hs) (nz_snk hm hk)
-        refine ⟨?_, ?_, fun h => i3 (by omega)⟩
-        · intro m hmm
-          obtain ⟨f1, d, f2, f3⟩ := i1 m hmm
-          exact ⟨f1, o :: d, by simp [f2], by simpa using Moved.trans hm f3⟩
-        · intro e he
-          obtain ⟨d, lost, f1, f2⟩ := i2 e he
-          exact ⟨o :: d, lost, f1, by simpa using Moved.trans hm f2⟩
+        rcases c1 k rfl with ⟨hk1, o, hm⟩ | ⟨hk0, hm, hlt⟩
+        · subst hk1
+          simp only [Nat.add_sub_cancel]
+          obtain ⟨i1, i2, i3⟩ := ih src1 snk1 r total
+          have hsuf := (hm.1.2.2.1 : src1.script <:+ src.script).length_le
+          refine ⟨?_, ?_, fun h => i3 (by omega)⟩
+          · intro m hmm
+            obtain ⟨f1, d, f2, f3⟩ := i1 m hmm
+            exact ⟨f1, o :: d, by simp [f2], by simpa using Moved.trans hm f3⟩
+          · intro e he
+            obtain ⟨d, lost, f1, f2⟩ := i2 e he
+            exact ⟨o :: d, lost, f1, by simpa using Moved.trans hm f2⟩
+        · subst hk0
+          simp only [Nat.sub_zero]
+          obtain ⟨i1, i2, i3⟩ := ih src1 snk1 (r + 1) total
+          refine ⟨?_, ?_, fun h => i3 (by omega)⟩
+          · intro m hmm
+            obtain ⟨f1, d, f2, f3⟩ := i1 m hmm
+            exact ⟨f1, d, f2, by simpa using Moved.trans hm f3⟩
+          · intro e he
+            obtain ⟨d, lost, f1, f2⟩ := i2 e he
+            exact ⟨d, lost, f1, by simpa using Moved.trans hm f2⟩
 
-/-- `sts_n_cbc`: the same loop (it counts what was moved): success = exactly n octets moved, nothing lost;
-    failure = a prefix moved; it terminates (fuel n suffices for drivers that never answer 0) -/
-theorem sts_n_cbc_spec (fuel n : Nat) (src : Src) (snk : Snk) (total : Nat)
-    (hs : NoZero src.script) (hk : NoZero snk.script) :
+/-- `sts_n_cbc`: the same loop (it counts what was moved): the same guarantee, for every driver behaviour -/
+theorem sts_n_cbc_spec (fuel n : Nat) (src : Src) (snk : Snk) (total : Nat) :
     (∀ m, (sts_n_cbc fuel n src snk total).1 = .ok m → m = total ∧
       ∃ d, d.length = n ∧ Moved src snk (sts_n_cbc fuel n src snk total).2.1 (sts_n_cbc fuel n src snk total).2.2 d []) ∧
     (∀ e, (sts_n_cbc fuel n src snk total).1 = .err e →
       ∃ d lost, lost.length ≤ 1 ∧ Moved src snk (sts_n_cbc fuel n src snk total).2.1 (sts_n_cbc fuel n src snk total).2.2 d lost) ∧
-    (n ≤ fuel → (sts_n_cbc fuel n src snk total).1 ≠ .diverge) :=
-  sts_n_spec fuel src snk n total hs hk
+    (n + src.script.length ≤ fuel → (sts_n_cbc fuel n src snk total).1 ≠ .diverge) :=
+  sts_n_spec fuel src snk n total
 
-/-- `sts_drain_cbc` and `sts_drain` stop with an error (end of data being one); what reached the
-    sink is a prefix of the stream and at most one octet is lost -/
+/-- `sts_drain_cbc` and `sts_drain` never report success (they stop with an error, end of data being one);
+    what reached the sink is a prefix of the stream and at most one octet is lost - for every driver behaviour -/
 theorem sts_drain_spec : ∀ (fuel : Nat) (src : Src) (snk : Snk),
-    NoZero src.script → NoZero snk.script →
     (∀ m, (sts_drain_cbc fuel src snk).1 ≠ .ok m) ∧ (∀ m, (sts_drain fuel src snk).1 ≠ .ok m) ∧
     (∃ d lost, lost.length ≤ 1 ∧ Moved src snk (sts_drain_cbc fuel src snk).2.1 (sts_drain_cbc fuel src snk).2.2 d lost) ∧
     (∃ d lost, lost.length ≤ 1 ∧ Moved src snk (sts_drain fuel src snk).2.1 (sts_drain fuel src snk).2.2 d lost) := by
   intro fuel
   induction fuel with
-  | zero => intro src snk _ _; exact ⟨by simp [sts_drain_cbc], by simp [sts_drain], ⟨[], [], by simp, Moved.refl src snk⟩, ⟨[], [], by simp, Moved.refl src snk⟩⟩
+  | zero => intro src snk; exact ⟨by simp [sts_drain_cbc], by simp [sts_drain], ⟨[], [], by simp, Moved.refl src snk⟩, ⟨[], [], by simp, Moved.refl src snk⟩⟩
   | succ fuel ih =>
-    intro src snk hs hk
-    obtain ⟨c1, c2, c3⟩ := sts_cbc_spec src snk hs hk
+    intro src snk
+    obtain ⟨c1, c2, c3⟩ := sts_cbc_gen src snk
     simp only [sts_drain_cbc, sts_drain]
     rcases hc : sts_cbc src snk with ⟨rc, src1, snk1⟩
     rw [hc] at c1 c2 c3
@@ -174,10 +184,12 @@ theorem sts_drain_spec : ∀ (fuel : Nat) (src : Src) (snk : Snk),
       refine ⟨by simp, ?_, ⟨[], lost, hl, hm⟩, ⟨[], lost, hl, hm⟩⟩
       intro m; by_cases he : e = .enomem <;> simp [he]
     | ok k =>
-      obtain ⟨_, o, hm⟩ := c1 k rfl
-      obtain ⟨i1, i2, ⟨d, lost, f1, f2⟩, ⟨d', lost', g1, g2⟩⟩ := ih src1 snk1 (nz_src hm hs) (nz_snk hm hk)
-      exact ⟨i1, i2, ⟨o :: d, lost, f1, by simpa using Moved.trans hm f2⟩,
-        ⟨o :: d', lost', g1, by simpa using Moved.trans hm g2⟩⟩
+      obtain ⟨i1, i2, ⟨d, lost, f1, f2⟩, ⟨d', lost', g1, g2⟩⟩ := ih src1 snk1
+      rcases c1 k rfl with ⟨_, o, hm⟩ | ⟨_, hm, _⟩
+      · exact ⟨i1, i2, ⟨o :: d, lost, f1, by simpa using Moved.trans hm f2⟩,
+          ⟨o :: d', lost', g1, by simpa using Moved.trans hm g2⟩⟩
+      · exact ⟨i1, i2, ⟨d, lost, f1, by simpa using Moved.trans hm f2⟩,
+          ⟨d', lost', g1, by simpa using Moved.trans hm g2⟩⟩
 
 /-- well-behaved drivers: draining moves everything up to the source's end -/
 theorem sts_drain_complete : ∀ (stream : List Octet) (got : List Octet) (sk kk : Kind) (c1 c2 : Nat),
